@@ -12,6 +12,8 @@ Families (every failure carries the event list / offsets needed to reproduce it)
     in flight: each caller gets the value of its own call.
  D  SocketRPCServer shutdown with calls in flight, after an hour of loop time: the handlers are not cancelled,
     serve() waits for them and returns.
+ G  bursts: 70 / 150 / 300 calls in flight on one connection completed within one event-loop turn, with the send loop
+    blocked in drain() by a peer that does not read, and with a free send loop: one reply per call.
  E  a handler that fails while it is being cancelled (teardown after garbage): serve() still ends, and with the
     receive loop's own error only.
 """
@@ -274,6 +276,42 @@ async def family_e(ctx, problems):
     await run.teardown()
 
 
+async def family_g(ctx, problems, sizes=(70, 150, 300)):
+    """Bursts: N calls in flight on one connection, all released within one turn of the event loop, while the send
+    loop is (a) blocked in drain() by a peer that does not read, (b) free. Every call must get exactly one reply."""
+    for n in sizes:
+        for slow_reader in (True, False):
+            run = ServerRun(gated=slow_reader)
+            await run.start()
+            run.reader.feed_data(b"".join(request(i + 1, "work", i + 1) for i in range(n)))
+            await settle()
+            if slow_reader:
+                # one reply on its way: the send loop now waits in drain() until the peer reads
+                run.handler.release(1, "ok")
+                await settle()
+            order = [i + 1 for i in range(n) if not (slow_reader and i == 0)]
+            ctx.rng.shuffle(order)
+            for tag in order:            # no await in between: one event-loop turn
+                run.handler.release(tag, "ok")
+            await settle()
+            queued = run.conn._completed.qsize()
+            run.writer.open()            # the peer reads again
+            await settle()
+            o = run.observe()
+            ctx.case(("implG", n, slow_reader), True)
+            got = sorted(c for c, _ in o["sent"])
+            if got != list(range(1, n + 1)) or o["status"] != "up":
+                missing = sorted(set(range(1, n + 1)) - set(got))
+                problems.append((f"burst:replies-lost:{'send-loop-blocked-in-drain' if slow_reader else 'send-loop-free'}",
+                                 f"{n} calls in flight on one connection were completed within one event-loop turn "
+                                 f"({'the peer was not reading, ' if slow_reader else ''}{queued} completed calls queued for "
+                                 f"the send loop): {len(missing)} calls never got a reply (first {missing[:5]}), "
+                                 f"{len(got) - len(set(got))} duplicate replies, connection {o['status']}",
+                                 {"calls": n, "slow_reader": slow_reader, "release_order": order[:80],
+                                  "queued_when_released": queued, "missing": missing[:50]}))
+            await run.teardown()
+
+
 def run_guarded(coro, seconds):
     """asyncio.run under a wall-clock guard (family D moves the loop clock, so no asyncio timeout around it)."""
     import threading
@@ -297,6 +335,7 @@ def run_all(ctx, tmp, deep=False):
         await family_a(ctx, 2500 if deep else ctx.scale(150, 1500), problems)
         await family_b(ctx, problems, stride=1)
         await family_e(ctx, problems)
+        await family_g(ctx, problems, (70, 150, 300, 700) if deep else (70, 150, 300))
         await family_c(ctx, tmp, problems)
     run_guarded(main(), 900)
     run_guarded(family_d(ctx, tmp, problems), 300)
